@@ -9,6 +9,9 @@
 #include <map>
 #include <string>
 #include <cstdlib>
+#include <vector>
+#include <deque>
+#include <algorithm>
 using namespace ipr;
 using Args = std::map<std::string, std::string>;
 static long num(const Args& a, const char* k, long d = 0) { auto i = a.find(k); return i == a.end() ? d : std::strtol(i->second.c_str(), nullptr, 0); }
@@ -38,6 +41,75 @@ static int replay_C16(const Args& a)
    return fails;
 }
 
+// ---- C08: the real tree templates, reached through derived classes (root is protected)
+namespace c08 {
+   struct cmp3 { int operator()(long a, long b) const { return a < b ? -1 : (b < a ? 1 : 0); } };
+   struct Item : util::rb_tree::link<Item> { long key; };
+   struct icmp { int operator()(const Item& a, const Item& b) const { return cmp3{}(a.key, b.key); }
+                 int operator()(const Item& a, long b) const { return cmp3{}(a.key, b); } };
+   template<class N, class K> int chk(N* n, N* parent, bool hl, long lo, bool hh, long hi, K key, int depth, int& maxd)
+   {
+      if (!n) return 0;
+      if (depth > maxd) maxd = depth;
+      if (depth > 200) return -1;
+      if (n->parent() != parent) return -1;
+      if (hl && !(key(n) > lo)) return -1;
+      if (hh && !(key(n) < hi)) return -1;
+      using util::rb_tree::Color;
+      if (n->color == Color::Red && ((n->left() && n->left()->color == Color::Red) || (n->right() && n->right()->color == Color::Red))) return -1;
+      int a = chk(n->left(), n, true, key(n), hh, hi, key, depth + 1, maxd), b = chk(n->right(), n, hl, lo, true, key(n), key, depth + 1, maxd);
+      if (a < 0 || b < 0 || a != b) return -1;
+      return a + (n->color == Color::Black);
+   }
+   static bool height_ok(int h, long n) { return h < 62 && (1ULL << h) <= (unsigned long long)(n + 1) * (unsigned long long)(n + 1); }  /* h <= 2*log2(n+1) */
+   struct Own : util::rb_tree::container<long> {
+      bool valid() { if (!root) return true; if (root->color != util::rb_tree::Color::Black) return false; int md = 0;
+         int r = chk(root, (util::rb_tree::node<long>*)nullptr, false, 0, false, 0, [](auto* n) { return n->data; }, 1, md); return r >= 0 && height_ok(md, size()); }
+   };
+   struct Intr : util::rb_tree::chain<Item> {
+      bool valid(long distinct) { if (!root) return distinct == 0; if (root->color != util::rb_tree::Color::Black) return false; int md = 0;
+         int r = chk(root, (Item*)nullptr, false, 0, false, 0, [](Item* n) { return n->key; }, 1, md); return r >= 0 && height_ok(md, distinct); }
+   };
+   // one sequence through both flavours; false when a clause of C08 fails
+   static bool run(const std::vector<long>& ks, std::string& why)
+   {
+      Own t; std::map<long, long*> seen; std::deque<Item> items; Intr c; 
+      for (long k : ks) {
+         long* r = t.insert(k, cmp3{});
+         if (!r || *r != k) { why = "owning insert returned a wrong element"; return false; }
+         if (seen.count(k) && seen[k] != r) { why = "owning insert of an equal key did not return the existing element"; return false; }
+         seen[k] = r;
+         if ((long)seen.size() != t.size()) { why = "owning count differs from the number of distinct keys"; return false; }
+         if (!t.valid()) { why = "owning tree violates the red-black / search / parent-link / height rules"; return false; }
+         items.push_back(Item{}); items.back().key = k;
+         if (c.insert(&items.back(), icmp{}) != &items.back()) { why = "intrusive insert did not return the node"; return false; }
+         if (!c.valid((long)seen.size())) { why = "intrusive tree violates the red-black / search / parent-link / height rules"; return false; }
+         for (auto& kv : seen) { if (t.find(kv.first, cmp3{}) != kv.second) { why = "owning: inserted key not found"; return false; }
+                                 Item* f = c.find(kv.first, icmp{}); if (!f || f->key != kv.first) { why = "intrusive: inserted key not found"; return false; } }
+      }
+      for (long q = -1; q <= (long)ks.size() + 1; ++q) if (!seen.count(q)) { if (t.find(q, cmp3{}) || c.find(q, icmp{})) { why = "a key never inserted was found"; return false; } }
+      return true;
+   }
+}
+static int replay_C08(const Args& a)
+{
+   std::string why; std::vector<long> ks;
+   auto it = a.find("keys");
+   if (it != a.end()) { std::stringstream ss(it->second); std::string tok; while (std::getline(ss, tok, ',')) if (!tok.empty()) ks.push_back(std::strtol(tok.c_str(), nullptr, 0));
+      bool ok = c08::run(ks, why); CLAUSE(ok, "C08 on the verifier's key sequence " << it->second << (ok ? "" : (": " + why))); if (!ok) return fails; }
+   // no (usable) counterexample input: sweep the real code -- all permutations of 1..n (n <= 8), all sequences with duplicates (length <= 6), sorted runs
+   for (int n = 1; n <= 8; ++n) { std::vector<long> p(n); for (int i = 0; i < n; ++i) p[i] = i + 1;
+      do { if (!c08::run(p, why)) { std::string s; for (long k : p) s += std::to_string(k) + " "; CLAUSE(false, "C08 sweep, permutation " << s << ": " << why); return fails; } } while (std::next_permutation(p.begin(), p.end())); }
+   for (int m = 1; m <= 6; ++m) { std::vector<long> s(m, 1);
+      while (true) { if (!c08::run(s, why)) { std::string t; for (long k : s) t += std::to_string(k) + " "; CLAUSE(false, "C08 sweep, sequence " << t << ": " << why); return fails; }
+         int i = m - 1; while (i >= 0 && s[i] == m) { s[i] = 1; --i; } if (i < 0) break; ++s[i]; } }
+   for (int n : {100, 1000}) { std::vector<long> up(n), dn(n); for (int i = 0; i < n; ++i) { up[i] = i; dn[i] = n - i; }
+      if (!c08::run(up, why)) { CLAUSE(false, "C08 sweep, ascending " << n << ": " << why); return fails; }
+      if (!c08::run(dn, why)) { CLAUSE(false, "C08 sweep, descending " << n << ": " << why); return fails; } }
+   CLAUSE(true, "C08 native sweep (perm <= 8, dup sequences <= 6, sorted runs) found no failing input");
+   return fails;
+}
+
 int main(int argc, char** argv)
 {
    if (argc < 2) return 3;
@@ -46,6 +118,7 @@ int main(int argc, char** argv)
    int n = -1;
    try {
       if (f == "C16") n = replay_C16(a);
+      else if (f == "C08") n = replay_C08(a);
       else { std::cerr << "unknown replay family " << f << "\n"; return 3; }
    } catch (const std::exception& e) { std::cout << "REPLAY-EXCEPTION: " << e.what() << "\n"; return 4; }
    return n > 0 ? 1 : 0;
